@@ -23,33 +23,42 @@ func init() {
 
 type nopConn struct{ net.Conn }
 
-func (nopConn) Write(b []byte) (int, error)        { return len(b), nil }
-func (nopConn) Read(b []byte) (int, error)         { return 0, io.EOF }
-func (nopConn) Close() error                       { return nil }
-func (nopConn) SetDeadline(time.Time) error        { return nil }
-func (nopConn) SetReadDeadline(time.Time) error    { return nil }
-func (nopConn) SetWriteDeadline(time.Time) error   { return nil }
-func (nopConn) LocalAddr() net.Addr                { return &net.TCPAddr{} }
-func (nopConn) RemoteAddr() net.Addr               { return &net.TCPAddr{} }
+func (nopConn) Write(b []byte) (int, error)      { return len(b), nil }
+func (nopConn) Read(b []byte) (int, error)       { return 0, io.EOF }
+func (nopConn) Close() error                     { return nil }
+func (nopConn) SetDeadline(time.Time) error      { return nil }
+func (nopConn) SetReadDeadline(time.Time) error  { return nil }
+func (nopConn) SetWriteDeadline(time.Time) error { return nil }
+func (nopConn) LocalAddr() net.Addr              { return &net.TCPAddr{} }
+func (nopConn) RemoteAddr() net.Addr             { return &net.TCPAddr{} }
 
 func isGrease16(v uint16) bool { return v&0x0f0f == 0x0a0a && v>>8 == v&0xff }
 
-// helloSig parses a ClientHello handshake message (without record header) into
-// (signature of suites+extension types modulo GREASE and order of extensions, SNI).
-func helloSig(msg []byte) (string, string, bool) {
+// c29Hello is what the test server extracts from a ClientHello: the fingerprint signature
+// (suites in order + set of extension types, modulo GREASE and padding), the SNI and the
+// set of extension types.
+type c29Hello struct {
+	sig  string
+	sni  string
+	exts map[uint16]bool
+}
+
+// helloSig parses a ClientHello handshake message (without record header).
+func helloSig(msg []byte) (c29Hello, bool) {
+	h := c29Hello{exts: map[uint16]bool{}}
 	if len(msg) < 4+2+32+1 || msg[0] != 1 {
-		return "", "", false
+		return h, false
 	}
 	p := msg[4:]
 	p = p[2+32:]
 	sl := int(p[0])
 	if len(p) < 1+sl+2 {
-		return "", "", false
+		return h, false
 	}
 	p = p[1+sl:]
 	cl := int(binary.BigEndian.Uint16(p))
 	if len(p) < 2+cl+1 {
-		return "", "", false
+		return h, false
 	}
 	var suites []string
 	for i := 0; i+1 < cl; i += 2 {
@@ -61,34 +70,35 @@ func helloSig(msg []byte) (string, string, bool) {
 	p = p[2+cl:]
 	ml := int(p[0])
 	if len(p) < 1+ml+2 {
-		return "", "", false
+		return h, false
 	}
 	p = p[1+ml:]
 	el := int(binary.BigEndian.Uint16(p))
 	p = p[2:]
 	if len(p) < el {
-		return "", "", false
+		return h, false
 	}
 	p = p[:el]
 	var exts []string
-	sni := ""
 	for len(p) >= 4 {
 		t := binary.BigEndian.Uint16(p)
 		l := int(binary.BigEndian.Uint16(p[2:]))
 		if len(p) < 4+l {
-			return "", "", false
+			return h, false
 		}
 		body := p[4 : 4+l]
 		p = p[4+l:]
 		if t == 0 && len(body) >= 5 {
-			sni = string(body[5:])
+			h.sni = string(body[5:])
 		}
 		if !isGrease16(t) && t != 21 /* padding depends on SNI length */ {
 			exts = append(exts, fmt.Sprintf("%d", t))
+			h.exts[t] = true
 		}
 	}
 	sort.Strings(exts)
-	return strings.Join(suites, ",") + "|" + strings.Join(exts, ","), sni, true
+	h.sig = strings.Join(suites, ",") + "|" + strings.Join(exts, ",")
+	return h, true
 }
 
 type prefixConn struct {
@@ -98,23 +108,234 @@ type prefixConn struct {
 
 func (p *prefixConn) Read(b []byte) (int, error) { return p.r.Read(b) }
 
+// ---- ids and fingerprints, numbered as in Model/Roller.v (Record hid) ----
+
+// c29FP is a ClientHelloID as the model sees it: base = (Client, Version, Weights by value), seed = number of the
+// Seed (-1 = nil). A fingerprint seen on the wire is named by the id-with-seed that produces it.
+type c29FP struct {
+	rnd  bool
+	base int // -1 = not recognised
+	seed int
+}
+
+func (f c29FP) unseeded() bool { return f.rnd && f.seed < 0 }
+func (f c29FP) coq() string {
+	b := f.base
+	if b < 0 {
+		b = 9999
+	}
+	return fmt.Sprintf("(mkHid %s %d %s)", vh.Bool(f.rnd), b, vh.Opt(f.seed >= 0, fmt.Sprint(f.seed)))
+}
+func (f c29FP) String() string {
+	if f == c29None {
+		return "none"
+	}
+	if !f.rnd {
+		return fmt.Sprintf("p%d", f.base)
+	}
+	if f.seed < 0 {
+		return fmt.Sprintf("R%d", f.base)
+	}
+	return fmt.Sprintf("R%d#%d", f.base, f.seed)
+}
+
+var c29None = c29FP{base: -2, seed: -1} // "no id"
+
+func c29Opt(f c29FP) string { return vh.Opt(f != c29None, f.coq()) }
+
+// c29Family is one kind of randomized id: a "Randomized*" client name with a weights vector. need lists the extension
+// types every hello of the family must have / must not have (forced by the client name or by weights 0 / 1); two families
+// with a conflicting entry can be told apart on the wire whatever their seeds.
+type c29Family struct {
+	client  string
+	weights *tls.Weights // nil = DefaultWeights
+	need    map[uint16]bool
+}
+
+func (a *c29Family) distinguishable(b *c29Family) bool {
+	for t, v := range a.need {
+		if w, ok := b.need[t]; ok && w != v {
+			return true
+		}
+	}
+	return false
+}
+func (a *c29Family) matches(h c29Hello) bool {
+	for t, v := range a.need {
+		if h.exts[t] != v {
+			return false
+		}
+	}
+	return true
+}
+
+type c29Entry struct {
+	id tls.ClientHelloID
+	fp c29FP
+}
+
+// c29World numbers ids, seeds and fingerprints consistently for the whole run.
+type c29World struct {
+	mu       sync.Mutex
+	fams     []*c29Family
+	parrots  []tls.ClientHelloID
+	pool     []c29Entry
+	sigToFP  map[string]c29FP
+	seedNo   map[tls.PRNGSeed]int
+	nextSeed int
+}
+
+const c29FamBase = 100
+
+func (w *c29World) famOf(h tls.ClientHelloID) int {
+	for i, f := range w.fams {
+		if f.client != h.Client || h.Version != "0" {
+			continue
+		}
+		a, b := f.weights, h.Weights
+		if a == nil {
+			a = &tls.DefaultWeights
+		}
+		if b == nil {
+			b = &tls.DefaultWeights
+		}
+		if *a == *b {
+			return i
+		}
+	}
+	return -1
+}
+
+func c29Probe(id tls.ClientHelloID) (c29Hello, bool) {
+	uc := tls.UClient(nopConn{}, &tls.Config{ServerName: "probe.example.test"}, id)
+	if err := uc.BuildHandshakeState(); err != nil {
+		return c29Hello{}, false
+	}
+	return helloSig(uc.HandshakeState.Hello.Raw)
+}
+
+// idFP names a ClientHelloID held by a Roller / a connection.
+func (w *c29World) idFP(h tls.ClientHelloID) c29FP {
+	w.mu.Lock()
+	defer w.mu.Unlock()
+	if !strings.HasPrefix(h.Client, "Randomized") {
+		for i, p := range w.parrots {
+			if p.Client == h.Client && p.Version == h.Version && h.Seed == nil {
+				return c29FP{false, i, -1}
+			}
+		}
+		return c29FP{false, -1, -1}
+	}
+	fam := w.famOf(h)
+	if fam < 0 {
+		return c29FP{true, -1, -1}
+	}
+	if h.Seed == nil {
+		return c29FP{true, c29FamBase + fam, -1}
+	}
+	if n, ok := w.seedNo[*h.Seed]; ok {
+		return c29FP{true, c29FamBase + fam, n}
+	}
+	// a seed generated by the library: find the number its fingerprint got when the server saw it
+	n := -1
+	if hello, ok := c29Probe(h); ok {
+		if f, seen := w.sigToFP[hello.sig]; seen && f.rnd && f.base == c29FamBase+fam {
+			n = f.seed
+		} else if !seen {
+			n = w.nextSeed
+			w.nextSeed++
+			w.sigToFP[hello.sig] = c29FP{true, c29FamBase + fam, n}
+		}
+	}
+	if n < 0 {
+		n = w.nextSeed
+		w.nextSeed++
+	}
+	w.seedNo[*h.Seed] = n
+	return c29FP{true, c29FamBase + fam, n}
+}
+
+// wireFP names the fingerprint of a hello the server received: a known one by its signature, otherwise a fresh
+// fingerprint of the one unseeded family among cands (family indices) that can have produced it.
+func (w *c29World) wireFP(h c29Hello, cands []int) c29FP {
+	w.mu.Lock()
+	defer w.mu.Unlock()
+	if f, ok := w.sigToFP[h.sig]; ok {
+		return f
+	}
+	match := -1
+	for _, fi := range cands {
+		if w.fams[fi].matches(h) {
+			if match >= 0 {
+				return c29FP{true, -1, -1}
+			}
+			match = fi
+		}
+	}
+	if match < 0 {
+		return c29FP{false, -1, -1}
+	}
+	f := c29FP{true, c29FamBase + match, w.nextSeed}
+	w.nextSeed++
+	w.sigToFP[h.sig] = f
+	return f
+}
+
+// ---- the test server ----
+
+const (
+	c29Reject = iota // read the hello, close
+	c29Accept        // run the real handshake
+	c29Stall         // read the hello, then stay silent until the client goes away
+)
+
+// how one attempt ended, seen from the server
+const (
+	c29Refused = iota // closed / handshake failed
+	c29Served         // handshake completed and the client used the connection
+	c29Late           // handshake completed on the server side but the client never used the connection
+	c29Silent         // stalled
+)
+
 type c29Attempt struct {
-	id   int
-	ok   bool
+	fp   c29FP
+	how  int
 	done chan struct{}
 }
 
 type c29Server struct {
 	ln      net.Listener
+	w       *c29World
+	cands   []int // unseeded families in play
 	mu      sync.Mutex
-	trace   map[string][]int // sni -> ids seen, in order
-	okd     map[string][]*c29Attempt
-	accept  map[int]bool
-	sigToID map[string]int
+	okd     map[string][]*c29Attempt // sni -> attempts, in the order their hellos arrived
+	policy  map[c29FP]int            // exact fingerprint, or the unseeded family id for fresh fingerprints
 	cfg     *tls.Config
 	wg      sync.WaitGroup
 	maxConn int // close the listener after this many accepted connections (0 = never)
 	nconn   int
+	nohello int        // connections that ended before a complete ClientHello arrived
+	held    []net.Conn // black-holed connections, kept open until the scenario ends
+}
+
+// release closes the black-holed connections (Roller does not close the connection of a failed attempt itself).
+func (s *c29Server) release() {
+	s.mu.Lock()
+	for _, h := range s.held {
+		h.Close()
+	}
+	s.held = nil
+	s.mu.Unlock()
+}
+
+func (s *c29Server) policyOf(f c29FP) int {
+	if p, ok := s.policy[f]; ok {
+		return p
+	}
+	if f.rnd {
+		return s.policy[c29FP{true, f.base, -1}]
+	}
+	return c29Reject
 }
 
 func (s *c29Server) serve() {
@@ -133,39 +354,73 @@ func (s *c29Server) serve() {
 		go func() {
 			defer s.wg.Done()
 			defer conn.Close()
-			conn.SetDeadline(time.Now().Add(5 * time.Second))
+			conn.SetDeadline(time.Now().Add(4 * time.Second)) // the hello follows the TCP connect at once
 			hdr := make([]byte, 5)
-			if _, err := io.ReadFull(conn, hdr); err != nil {
+			body := []byte(nil)
+			_, err := io.ReadFull(conn, hdr)
+			if err == nil {
+				body = make([]byte, int(binary.BigEndian.Uint16(hdr[3:])))
+				_, err = io.ReadFull(conn, body)
+			}
+			if err != nil {
+				s.mu.Lock()
+				s.nohello++
+				s.mu.Unlock()
 				return
 			}
-			body := make([]byte, int(binary.BigEndian.Uint16(hdr[3:])))
-			if _, err := io.ReadFull(conn, body); err != nil {
-				return
-			}
-			sig, sni, ok := helloSig(body)
-			id := -1
+			hello, ok := helloSig(body)
+			fp := c29FP{false, -1, -1}
 			if ok {
-				if v, found := s.sigToID[sig]; found {
-					id = v
-				}
+				fp = s.w.wireFP(hello, s.cands)
 			}
-			at := &c29Attempt{id: id, done: make(chan struct{})}
-			defer close(at.done)
+			conn.SetDeadline(time.Now().Add(8 * time.Second))
+			at := &c29Attempt{fp: fp, how: c29Refused, done: make(chan struct{})}
 			s.mu.Lock()
-			s.trace[sni] = append(s.trace[sni], id)
-			s.okd[sni] = append(s.okd[sni], at)
-			acc := s.accept[id]
+			s.okd[hello.sni] = append(s.okd[hello.sni], at)
+			pol := s.policyOf(fp)
+			if pol == c29Stall {
+				s.held = append(s.held, conn)
+			}
 			s.mu.Unlock()
-			if !acc {
+			switch pol {
+			case c29Reject:
+				close(at.done)
+				return
+			case c29Stall:
+				at.how = c29Silent
+				close(at.done)
+				conn.SetDeadline(time.Time{})
+				io.Copy(io.Discard, conn) // say nothing until the scenario ends
 				return
 			}
+			defer close(at.done)
 			tc := tls.Server(&prefixConn{conn, io.MultiReader(bytes.NewReader(append(hdr, body...)), conn)}, s.cfg)
 			if tc.Handshake() == nil {
-				at.ok = true
-				io.Copy(io.Discard, tc)
+				// the client's handshake succeeded iff it goes on to use the connection (the runner writes one byte)
+				one := make([]byte, 1)
+				conn.SetReadDeadline(time.Now().Add(5 * time.Second))
+				if n, _ := tc.Read(one); n == 1 {
+					conn.SetReadDeadline(time.Now().Add(8 * time.Second))
+					at.how = c29Served
+					io.Copy(io.Discard, tc)
+				} else {
+					at.how = c29Late
+				}
 			}
 		}()
 	}
+}
+
+// c29Obs is what one Dial was observed to do.
+type c29Obs struct {
+	name      string
+	wb, wa    c29FP // WorkingHelloID before / after (c29None = nil)
+	trace     []c29FP
+	how       []int
+	connected c29FP
+	tcpErr    bool
+	err       string
+	nohello   int
 }
 
 func runC29(c *vh.Ctx, concurrent bool) {
@@ -174,46 +429,92 @@ func runC29(c *vh.Ctx, concurrent bool) {
 	cert := tls.Certificate{Certificate: [][]byte{pki.LeafDER}, PrivateKey: pki.LeafKey}
 	scfg := &tls.Config{Certificates: []tls.Certificate{cert}}
 
-	var seedA, seedB, seedC, seedD tls.PRNGSeed
-	c.Rng.Read(seedA[:])
-	c.Rng.Read(seedB[:])
-	c.Rng.Read(seedC[:])
-	c.Rng.Read(seedD[:])
-	cands := []tls.ClientHelloID{tls.HelloChrome_58, tls.HelloChrome_70, tls.HelloChrome_83, tls.HelloChrome_100,
+	w := &c29World{sigToFP: map[string]c29FP{}, seedNo: map[tls.PRNGSeed]int{}, nextSeed: 1000}
+	// fixed parrots
+	for _, id := range []tls.ClientHelloID{tls.HelloChrome_58, tls.HelloChrome_70, tls.HelloChrome_83, tls.HelloChrome_100,
 		tls.HelloFirefox_55, tls.HelloFirefox_63, tls.HelloFirefox_99, tls.HelloFirefox_105, tls.HelloIOS_11_1,
-		tls.HelloIOS_12_1, tls.HelloIOS_13, tls.HelloSafari_16_0, tls.Hello360_11_0, tls.HelloQQ_11_1,
-		{Client: "Randomized", Version: "0", Seed: &seedA}, {Client: "Randomized", Version: "0", Seed: &seedB},
-		{Client: "Randomized", Version: "0", Seed: &seedC}, {Client: "Randomized", Version: "0", Seed: &seedD}}
-	var pool []tls.ClientHelloID
-	sigToID := map[string]int{}
-	for _, id := range cands {
-		uc := tls.UClient(nopConn{}, &tls.Config{ServerName: "probe.example.test"}, id)
-		if err := uc.BuildHandshakeState(); err != nil {
-			continue
-		}
-		sig, _, ok := helloSig(uc.HandshakeState.Hello.Raw)
+		tls.HelloIOS_12_1, tls.HelloIOS_13, tls.HelloSafari_16_0, tls.Hello360_11_0, tls.HelloQQ_11_1} {
+		hello, ok := c29Probe(id)
 		if !ok {
 			continue
 		}
-		if _, dup := sigToID[sig]; dup {
+		if _, dup := w.sigToFP[hello.sig]; dup {
 			continue
 		}
-		sigToID[sig] = len(pool)
-		pool = append(pool, id)
+		fp := c29FP{false, len(w.parrots), -1}
+		w.parrots = append(w.parrots, id)
+		w.sigToFP[hello.sig] = fp
+		w.pool = append(w.pool, c29Entry{id, fp})
 	}
-	c.Extra["distinct_fingerprints"] = len(pool)
-	idIndex := func(h tls.ClientHelloID) int {
-		for i, p := range pool {
-			if p.Client == h.Client && p.Version == h.Version && (p.Seed == nil) == (h.Seed == nil) && (p.Seed == nil || *p.Seed == *h.Seed) {
-				return i
+	// randomized families: the three shipped ids, and the same client names with weights that force extensions in or out
+	w.fams = []*c29Family{
+		{client: tls.HelloRandomized.Client, need: map[uint16]bool{}},
+		{client: tls.HelloRandomizedALPN.Client, need: map[uint16]bool{16: true}},
+		{client: tls.HelloRandomizedNoALPN.Client, need: map[uint16]bool{16: false}},
+	}
+	for len(w.fams) < 8 {
+		base := w.fams[c.Rng.Intn(3)]
+		wt := tls.DefaultWeights
+		f := &c29Family{client: base.client, weights: &wt, need: map[uint16]bool{}}
+		for t, v := range base.need {
+			f.need[t] = v
+		}
+		force := func(t uint16, p *float64) {
+			switch c.Rng.Intn(3) {
+			case 0:
+				*p = 0
+				f.need[t] = false
+			case 1:
+				*p = 1
+				f.need[t] = true
 			}
 		}
-		return -1
+		if base.client == tls.HelloRandomized.Client {
+			force(16, &wt.Extensions_Append_ALPN)
+		}
+		force(5, &wt.Extensions_Append_Status)
+		force(18, &wt.Extensions_Append_SCT)
+		force(0xff01, &wt.Extensions_Append_Reneg)
+		force(23, &wt.Extensions_Append_EMS)
+		if w.famOf(tls.ClientHelloID{Client: f.client, Version: "0", Weights: f.weights}) < 0 {
+			w.fams = append(w.fams, f)
+		}
 	}
-	coqIDs := func(xs []int) string {
+	for i, f := range w.fams { // unseeded ids
+		w.pool = append(w.pool, c29Entry{tls.ClientHelloID{Client: f.client, Version: "0", Weights: f.weights}, c29FP{true, c29FamBase + i, -1}})
+	}
+	// randomized ids with a seed (the first four with the plain "Randomized" name and default weights)
+	var seeds [4]tls.PRNGSeed
+	for i := range seeds {
+		c.Rng.Read(seeds[i][:])
+		w.seedNo[seeds[i]] = i
+	}
+	for k := 0; k < 9; k++ {
+		fi, si := 0, k
+		if k >= 4 {
+			fi, si = c.Rng.Intn(len(w.fams)), c.Rng.Intn(4)
+		}
+		sd := seeds[si]
+		id := tls.ClientHelloID{Client: w.fams[fi].client, Version: "0", Seed: &sd, Weights: w.fams[fi].weights}
+		fp := c29FP{true, c29FamBase + fi, si}
+		hello, ok := c29Probe(id)
+		if !ok {
+			continue
+		}
+		if _, dup := w.sigToFP[hello.sig]; dup {
+			continue
+		}
+		w.sigToFP[hello.sig] = fp
+		w.pool = append(w.pool, c29Entry{id, fp})
+	}
+	pool := w.pool
+	c.Extra["distinct_fingerprints"] = len(w.sigToFP)
+	c.Extra["unseeded_families"] = len(w.fams)
+
+	fpList := func(xs []c29FP) string {
 		it := make([]string, len(xs))
 		for i, x := range xs {
-			it[i] = fmt.Sprint(x)
+			it[i] = x.coq()
 		}
 		return vh.List(it)
 	}
@@ -228,31 +529,81 @@ func runC29(c *vh.Ctx, concurrent bool) {
 			scenarios = 40
 		}
 	}
+	stalls, unseededOK := 0, 0
 	for sc := 0; sc < scenarios; sc++ {
-		// configured ids: 2..5 distinct fingerprints
+		// configured ids: 2..5 distinct ids; one more may be accepted / remembered without being configured
 		perm := c.Rng.Perm(len(pool))
 		nids := 2 + c.Rng.Intn(4)
 		sameFamily := sc%3 == 2
 		if sameFamily {
-			// ids that differ only in their seed (same Client and Version), listed first
+			// mostly ids that share their client name and differ only in seed / weights
 			var fam, rest []int
 			for _, x := range perm {
-				if pool[x].Seed != nil {
+				if pool[x].fp.rnd {
 					fam = append(fam, x)
 				} else {
 					rest = append(rest, x)
 				}
 			}
 			perm = append(fam, rest...)
-			if nids > len(fam) && len(fam) >= 2 {
-				nids = len(fam)
+		}
+		// unseeded ids in one scenario must be distinguishable on the wire
+		var sel []int
+		var cands []int
+		for _, x := range perm {
+			if len(sel) == nids+1 {
+				break
+			}
+			if pool[x].fp.unseeded() {
+				fi := pool[x].fp.base - c29FamBase
+				clash := false
+				for _, o := range cands {
+					clash = clash || !w.fams[fi].distinguishable(w.fams[o])
+				}
+				if clash {
+					continue
+				}
+				cands = append(cands, fi)
+			}
+			sel = append(sel, x)
+		}
+		ids := sel[:nids]
+		idFPs := make([]c29FP, nids)
+		for i, x := range ids {
+			idFPs[i] = pool[x].fp
+		}
+		// every 5th scenario some fingerprints are black-holed: short handshake timeout so the runs stay fast
+		stallSc := !concurrent && sc%5 == 1
+		timeout := 3 * time.Second
+		if stallSc {
+			timeout = 400 * time.Millisecond
+		}
+		srv := &c29Server{w: w, cands: cands, okd: map[string][]*c29Attempt{}, policy: map[c29FP]int{}, cfg: scfg}
+		nstall := 0
+		var stalled []int
+		for _, x := range sel { // may accept an id that is not configured
+			switch {
+			case c.Rng.Intn(3) == 0:
+				srv.policy[pool[x].fp] = c29Accept
+			case stallSc && nstall < 2 && c.Rng.Intn(2) == 0:
+				srv.policy[pool[x].fp] = c29Stall
+				stalled = append(stalled, x)
+				nstall++
+			default:
+				srv.policy[pool[x].fp] = c29Reject
 			}
 		}
-		ids := perm[:nids]
-		srv := &c29Server{trace: map[string][]int{}, okd: map[string][]*c29Attempt{}, accept: map[int]bool{}, sigToID: sigToID, cfg: scfg}
-		for _, x := range perm[:nids+1] { // may accept an id that is not configured
-			if c.Rng.Intn(3) == 0 {
-				srv.accept[x] = true
+		if stallSc { // at least one configured fingerprint is black-holed and another one is served
+			a, b := c.Rng.Intn(nids), c.Rng.Intn(nids-1)
+			if b >= a {
+				b++
+			}
+			if len(stalled) == 0 {
+				srv.policy[pool[sel[a]].fp] = c29Stall
+				stalled = append(stalled, sel[a])
+			}
+			if srv.policy[pool[sel[b]].fp] != c29Stall {
+				srv.policy[pool[sel[b]].fp] = c29Accept
 			}
 		}
 		if sc%5 == 4 {
@@ -267,151 +618,228 @@ func runC29(c *vh.Ctx, concurrent bool) {
 		roller, _ := tls.NewRoller()
 		roller.HelloIDs = nil
 		for _, x := range ids {
-			roller.HelloIDs = append(roller.HelloIDs, pool[x])
+			roller.HelloIDs = append(roller.HelloIDs, pool[x].id)
 		}
 		roller.TcpDialTimeout = 2 * time.Second
-		roller.TlsHandshakeTimeout = 3 * time.Second
-		if sameFamily || c.Rng.Intn(3) == 0 { // a remembered working id, possibly not among the configured ones
-			w := pool[perm[c.Rng.Intn(nids+1)]]
-			roller.WorkingHelloID = &w
+		roller.TlsHandshakeTimeout = timeout
+		preset := c29None
+		if sameFamily || stallSc || c.Rng.Intn(3) == 0 { // a remembered working id, possibly not among the configured ones
+			x := sel[c.Rng.Intn(len(sel))]
+			if len(stalled) > 0 && c.Rng.Intn(2) == 0 {
+				x = stalled[c.Rng.Intn(len(stalled))] // the remembered fingerprint has been black-holed since
+			}
+			wid := pool[x].id
+			roller.WorkingHelloID = &wid
+			preset = pool[x].fp
 		}
-		oneDial := func(name string, checkFirst bool) {
-			var before *tls.ClientHelloID
+
+		oneDial := func(name string) c29Obs {
+			o := c29Obs{name: name, wb: c29None, wa: c29None, connected: c29None}
 			roller.HelloIDMu.Lock()
-			before = roller.WorkingHelloID
+			before := roller.WorkingHelloID
 			roller.HelloIDMu.Unlock()
-			wb := -1
 			if before != nil {
-				wb = idIndex(*before)
+				o.wb = w.idFP(*before)
 			}
 			conn, err := roller.Dial("tcp", ln.Addr().String(), name)
-			tcpErr := false
-			connected := -1
 			if err != nil {
+				o.err = err.Error()
 				var oe *net.OpError
 				if errors.As(err, &oe) && oe.Op == "dial" {
-					tcpErr = true
+					o.tcpErr = true
 				}
 			} else {
-				connected = idIndex(conn.ClientHelloID)
+				o.connected = w.idFP(conn.ClientHelloID)
 				if sn := conn.ConnectionState().ServerName; sn != name {
 					c.Fail("sni", "returned connection's SNI is not the given server name", name, sn, name)
 				}
+				conn.Write([]byte{1}) // use the connection, so the server knows this handshake succeeded
 				conn.Close()
 			}
 			roller.HelloIDMu.Lock()
 			after := roller.WorkingHelloID
 			roller.HelloIDMu.Unlock()
-			wa := -1
 			if after != nil {
-				wa = idIndex(*after)
+				o.wa = w.idFP(*after)
 			}
 			srv.mu.Lock()
-			tr := append([]int{}, srv.trace[name]...)
 			ats := append([]*c29Attempt{}, srv.okd[name]...)
+			o.nohello = srv.nohello
 			srv.mu.Unlock()
 			// what "the handshake succeeds" means is decided by the server side of each attempt
-			okOf := map[int]bool{}
-			var accepted []int
 			for _, a := range ats {
 				select {
 				case <-a.done:
-				case <-time.After(5 * time.Second):
+				case <-time.After(10 * time.Second):
 				}
-				if a.ok {
-					okOf[a.id] = true
-					accepted = append(accepted, a.id)
+				o.trace = append(o.trace, a.fp)
+				o.how = append(o.how, a.how)
+			}
+			return o
+		}
+
+		// judge applies the property text to one observed Dial. known: ids that may have been the remembered working id when
+		// the call started (exactly wb for a single caller). lastOK: fingerprint of the most recent successful Dial, if known.
+		judge := func(o c29Obs, known []c29FP, lastOK c29FP, sequential bool) {
+			in := map[string]any{"ids": fmt.Sprint(idFPs), "working": o.wb.String()}
+			got := map[string]any{"trace": fmt.Sprint(o.trace), "how": o.how, "connected": o.connected.String(), "after": o.wa.String(), "err": o.err}
+			member := func(f c29FP, l []c29FP) bool {
+				for _, y := range l {
+					if y == f {
+						return true
+					}
+				}
+				return false
+			}
+			may := append(append([]c29FP{}, idFPs...), known...)
+			// the configured (or remembered) id a fingerprint on the wire belongs to
+			attr := func(f c29FP) c29FP {
+				if member(f, may) || !f.rnd {
+					return f
+				}
+				return c29FP{true, f.base, -1}
+			}
+			seen := map[c29FP]bool{}
+			for i, f := range o.trace {
+				a := attr(f)
+				if seen[a] {
+					c.Fail("retry", "a ClientHelloID was tried twice in one Dial", in, got, "each id at most once")
+				}
+				seen[a] = true
+				if f.base < 0 || !member(a, may) {
+					c.Fail("foreign-id", "Dial tried an id that is neither configured nor the working one", in, got, "")
+				}
+				if i < len(o.trace)-1 && o.how[i] == c29Served {
+					c.Fail("skipped-success", "Dial continued after a handshake that succeeded", in, got, "")
 				}
 			}
-			// property oracle on the implementation's behaviour
-			seen := map[int]bool{}
-			for i, x := range tr {
-				if seen[x] {
-					c.Fail("retry", "a ClientHelloID was tried twice in one Dial", map[string]any{"ids": ids, "working": wb}, tr, "each id at most once")
+			if sequential && len(o.trace) > 0 {
+				if o.wb != c29None && attr(o.trace[0]) != o.wb {
+					c.Fail("working-first", "Dial did not start with the remembered working id", in, got, o.wb.String())
 				}
-				seen[x] = true
-				inPool := x == wb
-				for _, y := range ids {
-					inPool = inPool || x == y
+				if lastOK != c29None && o.trace[0] != lastOK {
+					c.Fail("working-first", "Dial did not start with the fingerprint of the most recent successful Dial", in, got, lastOK.String())
 				}
-				if !inPool {
-					c.Fail("foreign-id", "Dial tried an id that is neither configured nor the working one", map[string]any{"ids": ids, "working": wb}, tr, "")
-				}
-				if i < len(tr)-1 && okOf[x] {
-					c.Fail("skipped-success", "Dial continued after an accepted fingerprint", ids, tr, "")
-				}
-			}
-			if checkFirst && wb >= 0 && len(tr) > 0 && tr[0] != wb {
-				c.Fail("working-first", "Dial did not start with the most recently working id", map[string]any{"ids": ids, "working": wb}, tr, wb)
 			}
 			// "records that ID as working": with a single caller the recorded id must be the connected one; with concurrent
 			// Dials on one Roller another call may legitimately have recorded its own id in between, so only the
-			// sequential runs compare the field (the concurrent runs check it is some id of the pool, below).
-			if connected >= 0 && (len(tr) == 0 || tr[len(tr)-1] != connected || !okOf[connected] || (!concurrent && wa != connected) || (concurrent && wa < 0)) {
-				c.Fail("result", "returned connection is not the first accepted attempt, or was not recorded as working", map[string]any{"ids": ids, "working": wb, "accept": accepted}, map[string]any{"trace": tr, "connected": connected, "after": wa}, "")
+			// sequential runs compare the field (the concurrent runs check that some id is recorded).
+			if o.connected != c29None {
+				n := len(o.trace)
+				if n == 0 || o.trace[n-1] != o.connected || o.how[n-1] != c29Served || o.connected.unseeded() ||
+					(sequential && o.wa != o.connected) || (!sequential && o.wa == c29None) {
+					c.Fail("result", "returned connection is not the first attempt whose handshake succeeded, or its id was not recorded as working", in, got, "")
+				}
 			}
-			if connected < 0 && !tcpErr {
-				want := len(ids)
-				if wb >= 0 && !seen[wb] {
-					// working id must have been tried
-				}
-				isCfg := false
-				for _, y := range ids {
-					isCfg = isCfg || y == wb
-				}
-				if wb >= 0 && !isCfg {
+			if o.connected == c29None && !o.tcpErr && sequential {
+				want := len(idFPs)
+				if o.wb != c29None && !member(o.wb, idFPs) {
 					want++
 				}
-				if checkFirst && len(tr) != want {
-					c.Fail("exhaust", "Dial gave up without trying every id once", map[string]any{"ids": ids, "working": wb}, tr, want)
+				if len(o.trace) != want {
+					c.Fail("exhaust", "Dial gave up without trying every id once", in, got, want)
 				}
 			}
-			if !concurrent {
-				c.Case("dial", fmt.Sprintf("CDial %s %s %s %s %s %s %s", coqIDs(ids), vh.Opt(wb >= 0, fmt.Sprint(wb)), coqIDs(accepted), coqIDs(tr),
-					vh.Opt(connected >= 0, fmt.Sprint(connected)), vh.Bool(tcpErr), vh.Opt(wa >= 0, fmt.Sprint(wa))),
-					fmt.Sprint(ids, wb, accepted, tr, connected, tcpErr), len(tr) >= 2,
-					map[string]any{"ids": ids, "working_before": wb, "accepted": accepted, "trace": tr, "connected": connected, "tcp_err": tcpErr, "working_after": wa})
-			} else {
-				c.Case("cdial", "CDial [] None [] [] None false None", fmt.Sprint(name), len(tr) >= 2, map[string]any{"ids": ids, "trace": tr, "connected": connected})
+			if sequential && o.connected == c29None && o.wa != o.wb {
+				c.Fail("result", "a Dial that returned no connection changed the working id", in, got, o.wb.String())
 			}
 		}
+
 		if !concurrent {
+			lastOK := c29None
 			for d := 0; d < 3+c.Rng.Intn(3); d++ {
 				dialNo++
-				oneDial(fmt.Sprintf("d%d.example.test", dialNo), true)
+				o := oneDial(fmt.Sprintf("d%d.example.test", dialNo))
+				var known []c29FP
+				if o.wb != c29None {
+					known = []c29FP{o.wb}
+				}
+				judge(o, known, lastOK, true)
+				if o.connected != c29None && len(o.trace) > 0 {
+					lastOK = o.trace[len(o.trace)-1]
+					if lastOK.seed >= 1000 {
+						unseededOK++
+					}
+				}
+				tr := make([]string, len(o.trace))
+				for i, f := range o.trace {
+					beh := "Refuse 0"
+					switch o.how[i] {
+					case c29Served:
+						beh = "Serve 0"
+					case c29Late:
+						beh = fmt.Sprintf("Serve %d", timeout.Milliseconds())
+					case c29Silent:
+						beh = "Silent"
+						stalls++
+					}
+					tr[i] = fmt.Sprintf("(%s, %s)", f.coq(), beh)
+				}
+				c.Case("dial", fmt.Sprintf("CDial %s %s %d %s %s %s %s", fpList(idFPs), c29Opt(o.wb), timeout.Milliseconds(), vh.List(tr),
+					c29Opt(o.connected), vh.Bool(o.tcpErr), c29Opt(o.wa)),
+					fmt.Sprint(idFPs, o.wb, o.trace, o.how, o.connected, o.tcpErr), len(o.trace) >= 2,
+					map[string]any{"ids": fmt.Sprint(idFPs), "working_before": o.wb.String(), "timeout_ms": timeout.Milliseconds(),
+						"trace": fmt.Sprint(o.trace), "how": o.how, "connected": o.connected.String(), "tcp_err": o.tcpErr,
+						"working_after": o.wa.String(), "connections_without_hello": o.nohello})
 				if c.Rng.Intn(4) == 0 { // the server changes its mind between Dials
 					srv.mu.Lock()
-					x := perm[c.Rng.Intn(nids)]
-					srv.accept[x] = !srv.accept[x]
+					f := pool[sel[c.Rng.Intn(nids)]].fp
+					if srv.policy[f] == c29Accept {
+						srv.policy[f] = c29Reject
+					} else {
+						srv.policy[f] = c29Accept
+					}
 					srv.mu.Unlock()
 				}
 			}
 		} else {
 			var wg sync.WaitGroup
+			obs := make([]c29Obs, 6)
 			for g := 0; g < 6; g++ {
 				wg.Add(1)
 				dialNo++
 				name := fmt.Sprintf("c%d.example.test", dialNo)
-				go func() { defer wg.Done(); oneDial(name, false) }()
+				go func(g int) { defer wg.Done(); obs[g] = oneDial(name) }(g)
 			}
 			wg.Wait()
+			// any id recorded by one of the calls (or remembered at the start) may have been the working id of another
+			var known []c29FP
+			if preset != c29None {
+				known = append(known, preset)
+			}
+			for _, o := range obs {
+				for _, f := range []c29FP{o.wb, o.wa, o.connected} {
+					if f != c29None {
+						known = append(known, f)
+					}
+				}
+			}
+			for _, o := range obs {
+				judge(o, known, c29None, false)
+				c.Case("cdial", "CDial [] None 0 [] None false None", o.name, len(o.trace) >= 2,
+					map[string]any{"ids": fmt.Sprint(idFPs), "trace": fmt.Sprint(o.trace), "connected": o.connected.String()})
+			}
 		}
 		ln.Close()
+		srv.release()
 		srv.wg.Wait()
 	}
+	c.Extra["stalled_handshakes"] = stalls
+	c.Extra["dials_won_by_a_generated_seed"] = unseededOK
 	// TCP failure before any attempt
 	if !concurrent {
 		ln, _ := net.Listen("tcp", "127.0.0.1:0")
 		addr := ln.Addr().String()
 		ln.Close()
 		roller, _ := tls.NewRoller()
-		roller.HelloIDs = []tls.ClientHelloID{pool[0], pool[1]}
+		roller.HelloIDs = []tls.ClientHelloID{pool[0].id, pool[1].id}
 		roller.TcpDialTimeout = time.Second
 		_, err := roller.Dial("tcp", addr, "closed.example.test")
 		var oe *net.OpError
 		if err == nil || !errors.As(err, &oe) || oe.Op != "dial" {
 			c.Fail("tcp-error", "Dial to a closed port did not return the TCP dial error", addr, fmt.Sprint(err), "dial error")
 		}
-		c.Case("dial", "CDial [0;1] None [] [] None true None", "closed-port", false, map[string]any{"closed_port": true, "err": fmt.Sprint(err)})
+		c.Case("dial", fmt.Sprintf("CDial %s None 3000 [] None true None", fpList([]c29FP{pool[0].fp, pool[1].fp})), "closed-port", false,
+			map[string]any{"closed_port": true, "err": fmt.Sprint(err)})
 	}
 }
